@@ -26,7 +26,7 @@ ObsFont(e) ==
 StepCase(e) == e.ev = "case" /\ font' = NoFont
 StepFont(e) ==
   /\ e.ev = "font"
-  /\ e.cw >= 0 /\ e.ch >= 0 /\ e.s >= 0 /\ AtlasWellFormed(e)
+  /\ (e.cw >= 0 /\ e.ch >= 0 /\ e.s >= 0 /\ AtlasWellFormed(e)) = TRUE
   /\ LET fo == ObsFont(e) IN
      /\ font' = fo
      /\ Report(e.case, FontFails(fo), FontDetail(fo))
@@ -42,7 +42,7 @@ StepFont(e) ==
 StepLine(e) ==
   /\ e.ev = "line"
   /\ font.set
-  /\ RCanonical(e.map)
+  /\ RCanonical(e.map) = TRUE          \* structure (forced to plain evaluation)
   /\ LET sty == [tc |-> e.tc, bg |-> e.bg, ulm |-> e.ul[1], ulc |-> e.ul[2], stm |-> e.st[1], stc |-> e.st[2]]
          ln  == [chars |-> e.chars, pos |-> e.pos, sty |-> sty, map |-> e.map]
          small == ~font.wf \/ Len(e.chars) * font.cw * font.ch <= 160
